@@ -302,9 +302,15 @@ func runJob(j job) {
 			for i, o := range oc.Operands {
 				ops[i] = ascii(o, 80)
 			}
+			// (a chunk beyond 256 KiB is reported truncated: the validator then sees a length it cannot accept,
+			// instead of being handed hundreds of megabytes)
+			shown := code
+			if len(shown) > 262144 {
+				shown = shown[:262144]
+			}
 			emit(ev{"e": "cg", "id": j.ID, "k": ocIdx, "kind": strings.TrimPrefix(oc.Kind.String(), "Op"), "ops": ops,
 				"bits": int(ctx.BitMode), "org": int(int32(ctx.DollarPosition)), "off": off,
-				"bytes": ints(code), "err": es, "diag": diag.take()})
+				"bytes": ints(shown), "err": es, "diag": diag.take()})
 			ocIdx++
 			diag.take()
 		}
